@@ -379,6 +379,9 @@ struct checked_buffer
 // byte b in 0x40..0x7f answers (term index, length) = ((b - 0x40) / 4, (b - 0x40) % 4 + 1); any other byte, an index
 // that is not a term, or a length beyond the end of the input = "no term" (default recognized_term).  Every call is
 // logged with the offset it was asked at and the source point it was given.
+// the stream object the CALLER handed to parse() (null when the call has no stream argument): a custom lexer is handed that
+// very stream, verbose or not - what it writes there (warnings, reasons) is the caller's to read
+inline thread_local const void* tl_stream_addr = nullptr;
 template<int NTerms>
 struct byte_lexer
 {
@@ -386,9 +389,10 @@ struct byte_lexer
     // object that several calls share (threads!) shows as a data race under ThreadSanitizer and as `lexshared` events
     long w_avail = 0, w_guard = 0;
     template<typename Iterator, typename ErrorStream>
-    ctpg::recognized_term match(ctpg::match_options, ctpg::source_point sp, Iterator start, Iterator end, ErrorStream&)
+    ctpg::recognized_term match(ctpg::match_options, ctpg::source_point sp, Iterator start, Iterator end, ErrorStream& es)
     {
         auto& L = tl_log;
+        if (tl_stream_addr && static_cast<const void*>(std::addressof(es)) != tl_stream_addr) { Event e; e.k = "lexstream_foreign"; L.add(std::move(e)); }
         w_avail = 0; w_guard = reinterpret_cast<long>(&L);
         for (Iterator i = start; !(i == end); ++i) ++w_avail;
         long avail = w_avail;
@@ -621,6 +625,7 @@ std::optional<Node> parse_with(const P& p, const Job& j, std::string& stream_tex
     {
         std::string_view v0 = buf.get_view(buf.begin(), buf.begin());
         L.base = v0.data(); L.base_len = j.bytes.size(); L.text = &j.bytes;
+        tl_stream_addr = nullptr;
         if (j.stream == 1)
         {
             if (j.verbose || !j.ws || !j.nl)
@@ -642,6 +647,7 @@ std::optional<Node> parse_with(const P& p, const Job& j, std::string& stream_tex
             static thread_local std::ostringstream os;
             os.str(std::string()); os.clear();
             const auto f0 = os.flags(); const auto w0 = os.width(); const auto p0 = os.precision(); const auto c0 = os.fill();
+            tl_stream_addr = &os;
             auto r = p.parse(o, buf, os);
             stream_text = os.str();
             if (os.flags() != f0 || os.width() != w0 || os.precision() != p0 || os.fill() != c0)
@@ -652,6 +658,7 @@ std::optional<Node> parse_with(const P& p, const Job& j, std::string& stream_tex
             return r;
         }
         capture_stream cs;
+        tl_stream_addr = &cs;
         // with default options the SHORT overloads are called (parse(buffer, stream), context_parse(ctx, buffer, stream)):
         // they forward to the long ones, and that forwarding is part of what is validated
         const bool dflt_opts = !j.verbose && j.ws && j.nl;
@@ -807,6 +814,12 @@ void serve_threads(Make&& make, const std::string& gid, const std::vector<Job>& 
     std::string o = "{\"dump\":";
     dump_parser(*p, gid, o);
     o.back() = '}'; o += "\n";
+    {
+        // what write_diag_str says about THIS object before any call (compared with the same object's text in a process of its own)
+        std::ostringstream ds;
+        try { p->write_diag_str(ds); } catch (const std::exception&) {}
+        o += "{\"diag\":"; jstr(o, ds.str()); o += ",\"g\":"; jstr(o, gid); o += "}\n";
+    }
     fwrite(o.data(), 1, o.size(), out);
     if (o.find("[\"rr\",") != std::string::npos) return;
     std::vector<Job> mine;
